@@ -98,6 +98,13 @@ def layouts(tier: str) -> list[dict]:
     add("grp4-alt-revorder-be", copy.deepcopy(sub4), [{"uid": "g", "name": "G", "width": 128, "sub_regs": ["s0", "s1", "s2", "s3"],
                                                       "reverse_subregs_order": True, "alternative_widths": [64]}],
         depth_q=3, depth_t=4)
+    # layouts the spec loader cannot produce, built through the public class API (Register(reverse=True) with bit-fields;
+    # a group register with bit-fields of its own, one of them straddling the sub-register boundary)
+    add("api-reversed-fields", [_reg("r0", "R0", 0, 32, [_bf("r0f0", "F0", 8), _bf("r0f1", "F1", 16), _bf("r0f2", "F2", 8)])],
+        depth_q=2, depth_t=3)
+    L[-1]["api"] = {"reverse": ["r0"]}
+    add("api-group-own-fields", copy.deepcopy(sub2), [{"uid": "g", "name": "G", "sub_regs": ["s0", "s1"]}], depth_q=2, depth_t=3)
+    L[-1]["api"] = {"group_fields": {"g": [["GLOW", 0, 28], ["GX", 28, 8], ["GHIGH", 36, 28]]}}
     return L
 
 
@@ -113,6 +120,16 @@ def build(layout: dict):
     regs.feature = "verif"
     regs.base_key = None
     regs._load_from_spec(copy.deepcopy(layout["spec"]), copy.deepcopy(layout["grouped"]))
+    api = layout.get("api") or {}
+    if api:
+        from spsdk.utils.registers import RegsBitField
+
+        for uid in api.get("reverse", []):
+            regs.get_reg(uid).reverse = True
+        for gid, fl in api.get("group_fields", {}).items():
+            g = regs.get_reg(gid)
+            for name, off, w in fl:
+                g.add_bitfield(RegsBitField(g, name, off, w, f"{gid}-{name}"))
     return regs
 
 
@@ -164,6 +181,10 @@ class RegsModel:
         for gid, g in self.groups.items():
             subs = g["sub_regs"]
             self.width[gid] = int(g.get("width", 0)) or sum(self.width[s] for s in subs)
+        api = layout.get("api") or {}
+        self.rev_plain = set(api.get("reverse", []))
+        for gid, fl in api.get("group_fields", {}).items():
+            self.fields[gid] = [{"name": n, "off": o, "w": w, "shift": 0, "enums": {}, "reset": 0} for n, o, w in fl]
 
     # group helpers --------------------------------------------------------------------------
     def g_raw(self, gid: str) -> int:
@@ -187,7 +208,7 @@ class RegsModel:
             self.leaf[s] = (v >> pos) & ((1 << sw) - 1)
 
     def is_reversed(self, uid: str) -> bool:
-        return uid in self.groups and bool(self.groups[uid].get("reversed"))
+        return (uid in self.groups and bool(self.groups[uid].get("reversed"))) or uid in self.rev_plain
 
     def has_alt(self, uid: str) -> bool:
         return uid in self.groups and bool(self.groups[uid].get("alternative_widths"))
@@ -211,7 +232,13 @@ class RegsModel:
             self.leaf[uid] = v
 
     def field(self, uid: str, f: dict) -> int:
-        return ((self.leaf[uid] >> f["off"]) & ((1 << f["w"]) - 1)) << f["shift"]
+        # a bit-field is a window on the register's user-facing (non-raw) value
+        return ((self.get(uid, False) >> f["off"]) & ((1 << f["w"]) - 1)) << f["shift"]
+
+    def set_field(self, uid: str, f: dict, v: int, raw_space: bool = False) -> None:
+        cur = self.get(uid, raw_space)
+        cur = (cur & ~(((1 << f["w"]) - 1) << f["off"])) | (v << f["off"])
+        self.set(uid, cur, raw_space)
 
     def snapshot(self) -> tuple:
         return tuple(self.leaf[u] for u in self.order)
@@ -260,7 +287,7 @@ def ops_for(layout: dict, model: RegsModel) -> list[tuple]:
         for v in (1, (1 << w) - 1, 1 << w, 0x0102030405060708 & ((1 << w) - 1)):
             ops.append(("rset", uid, v, True))
         ops.append(("rreset", uid))
-    for uid in model.order:
+    for uid in list(model.order) + [g for g in model.groups if g in model.fields]:
         for f in model.fields[uid]:
             w = f["w"] + f["shift"]
             vals = [0, 1, 1 << (w - 1), (1 << w) - 1, 1 << w, (1 << w) + 1, -1, "0x1", "zz"]
@@ -401,7 +428,7 @@ def step(regs, model: RegsModel, op: tuple, lname: str) -> list:
         if v is None or v < 0 or v >= (1 << f["w"]):
             exp_reject = True
         else:
-            model.leaf[uid] = (model.leaf[uid] & ~(((1 << f["w"]) - 1) << f["off"])) | (v << f["off"])
+            model.set_field(uid, f, v)
     elif kind == "reset_all":
         for u in model.order:
             model.leaf[u] = model.reset[u]
@@ -457,6 +484,11 @@ def step(regs, model: RegsModel, op: tuple, lname: str) -> list:
                 if got != model.field(u, f):
                     viol.append(("C11.field-view", f"shift={f['shift']}", f"{lname} after {op}: {u}.{f['name']} reads {got}, bits say {model.field(u, f)}"))
         for gid in model.groups:
+            for f in model.fields.get(gid, []):
+                got = find_target(regs, gid).find_bitfield(f["name"]).get_value()
+                if got != model.field(gid, f):
+                    viol.append(("C11.field-view", "group-own-field", f"{lname} after {op}: {gid}.{f['name']} reads {got}, register value says {model.field(gid, f)}"))
+        for gid in model.groups:
             if model.has_alt(gid):
                 continue
             g = find_target(regs, gid)
@@ -475,6 +507,8 @@ def _grp_disc(op: tuple, model: RegsModel) -> str:
         g = model.groups[uid]
         return ":group" + ("+reversed" if g.get("reversed") else "") + ("+revorder" if g.get("reverse_subregs_order") else "") + \
             ("+alt" if g.get("alternative_widths") else "")
+    if uid in model.rev_plain:
+        return ":reversed-register-with-fields"
     return ""
 
 
